@@ -227,6 +227,37 @@ def mechanism_of_death(ctx, case):
     return "%s/%s" % (kind, top)
 
 
+def mechanism_of_hang(ctx, case):
+    """Re-run one over-budget program, attach gdb after half the budget and name the dominating function."""
+    import shutil
+    import time
+    if not shutil.which("gdb"):
+        return "unknown"
+    path = os.path.join(ctx.work, "hang_%d.ndjson" % case["input"]["id"])
+    with open(path, "w") as fo:
+        fo.write(json.dumps(case["input"]) + "\n")
+    proc = subprocess.Popen([vlib.bin_path("vh_anaq"), "crash", path, "600"], stdout=subprocess.DEVNULL,
+                            stderr=subprocess.DEVNULL)
+    try:
+        time.sleep(CPU_BUDGET_S / 2)
+        if proc.poll() is not None:
+            return "unknown"
+        p = subprocess.run(["gdb", "-p", str(proc.pid), "-batch", "-ex", "thread apply all bt 200"], stdout=subprocess.PIPE,
+                           stderr=subprocess.DEVNULL, text=True, errors="replace", timeout=120)
+    except subprocess.TimeoutExpired:
+        return "unknown"
+    finally:
+        proc.kill()
+        proc.wait()
+    counts = {}
+    for m in re.finditer(r"^#\d+\s+0x[0-9a-f]+ in (emmylua_[a-z_]+(?:::[A-Za-z0-9_<>{}]+)+?)::h[0-9a-f]{16}", p.stdout, re.M):
+        name = "::".join(m.group(1).split("::")[-2:])
+        counts[name] = counts.get(name, 0) + 1
+    if not counts:
+        return "unknown"
+    return sorted(counts.items(), key=lambda kv: (-kv[1], kv[0]))[0][0]
+
+
 def run(ctx):
     res = vlib.tlc("AnnoGen", "AnnoGen_mc", workers=ctx.pick(4, 8), timeout=1200)
     ctx.add_tlc(res)
@@ -272,7 +303,7 @@ def run(ctx):
             msg = re.sub(r"\d+", "N", r["panic"])[:80]
             sig = "C12/panic/%s/%s" % (r.get("stage"), msg)
         elif "budget_exceeded" in r:
-            sig = "C12/cpu-budget-exceeded"
+            sig = "C12/cpu-budget-exceeded/%s" % mechanism_of_hang(ctx, c)
         else:
             sig = "C12/process-died/%s" % mechanism_of_death(ctx, c)
         seen.setdefault(sig, []).append({"level": c["conf"]["level"], "strict": c["conf"]["strict"],
